@@ -120,6 +120,15 @@ def wiring(src):
         w.append(('bind', 'single-call:' + (re.sub(r'\s+', '', b.group(1)) if b else '?')))
     # the wiring is a finite map (which source feeds which field / parameter): the ORDER in which a struct literal lists its
     # fields is not part of it
+    # shapes the translator understands (anything else - values passed through locals, destructuring - needs data flow)
+    d = dict(w)
+    ok = (sum(1 for k, v in w if k.startswith('ServerArgs.') and v.startswith('arg:')) == 5
+          and all(re.fullmatch(r'\w+\.\w+', v) for k, v in w if k.startswith('ServerConfig.'))
+          and re.fullmatch(r'\w+', d.get('WebServer::new.0', '')) and re.fullmatch(r'\w+\.\w+', d.get('WebServer::new.1', ''))
+          and re.fullmatch(r'SqliteStorage::new\(\w+\.\w+\)\?', d.get('WebServer::new.2', ''))
+          and re.fullmatch(r'each:\w+\.\w+:\??(no-\?)?', d.get('bind', '')))
+    if not ok:
+        raise ValueError('the wiring goes through locals or destructuring (beyond this translator)')
     return sorted(w)
 
 def split_top(s):
